@@ -279,7 +279,9 @@ def _polygon_values(self, other, k, l, subpixels, mode, result, i, j):
     a1, a2 = uf_application_args(v1, 'frac_polygon'), uf_application_args(v2, 'frac_polygon')
     if a1 is None or a2 is None:
         return v1 == v2          # not kernel values (a re-implementation): nothing to reveal, compare as they are
-    vx, vy, wx, wy = self.vertices.x, self.vertices.y, other.vertices.x, other.vertices.y
+    # the vertex arrays are the ones the kernel was actually handed (its last two arguments), not the ones it ought to have been
+    # handed: that they are translates of each other is then an obligation (precondition of the translation lemma), not a premise
+    vx, vy, wx, wy = a1[6], a1[7], a2[6], a2[7]
     # the kernel contract, in its revealed form (FRAC is the sampled fraction: discharged from polygonal_overlap.pyx under C02)
     fact(v1 == sampled_fraction('polygon', (vx, vy), a1[0], a1[1], a1[2], a1[3], n))
     fact(v2 == sampled_fraction('polygon', (wx, wy), a2[0], a2[1], a2[2], a2[3], n))
